@@ -125,6 +125,29 @@ def free_vars(E):
     return fv
 
 
+def required_vars(E):
+    """free variables the library must declare as necessary: like free_vars, but a variable that only
+    enters through arguments with a Python default value ("pydef") is optional."""
+    def req(P):
+        if P is None or P["k"] == "const":
+            return set()
+        if P["k"] == "affine2":
+            return {P["var"]} if P.get("pydef") else {P["var"], P["var2"]}
+        return {P["var"]}
+    t = E["t"]
+    fv = set()
+    for P in own_params(E):
+        # (the rotation-matrix function of form "matrix_fn" is built without default values)
+        fv |= pvars(P) if (t == "rotate" and E.get("form") == "matrix_fn" and P is E.get("angle")) else req(P)
+    if t == "product":
+        fa, fb = required_vars(E["a"]), required_vars(E["b"])
+        bound = {n for n, _ in space_vars(E["b"])}
+        return (fa - bound) | fb
+    for c in children(E):
+        fv |= required_vars(c)
+    return fv
+
+
 def is_boundary(E):
     return E["t"] in ("boundary", "bleft", "bright")
 
